@@ -2,9 +2,12 @@
    Statement file: theorems, [exact lemma], Print Assumptions.  Nothing else.
    All theorems hold for every field K (Qc executable, R), all sizes n, m, t and all histories. *)
 From Coq Require Import Arith List ZArith QArith Qcanon Reals.
+(* C09's KISS-GP / WISKI prediction formulas (ski, wiski_fantasy_mean_cache, wiski_pred_cov) are loaded FIRST so that the
+   C04 names (wiski_inner: W is N x g here, C09's takes the transpose) take precedence *)
+From GPV Require Import Models.C09_structured Proofs.C09_textbook.
 From GPV Require Import Base.LinAlg Base.Exec Base.Expr Base.Psd Models.C01_posterior Proofs.C01_posterior
   Models.C04_fantasy Proofs.C04_fantasy Proofs.C04_schur Models.C08_shape Models.C04_mtshape Proofs.C04_mtshape
-  Models.C04_wiski Proofs.C04_wiski.
+  Models.C04_wiski Proofs.C04_wiski Proofs.C04_wiski_post.
 Import ListNotations.
 (* Base.Psd loads the R instance of Fld (declared after QcF); the executable examples below are over Qc *)
 Local Existing Instance QcF | 0.
@@ -219,24 +222,82 @@ Theorem c04_multitask_rhs_shape_fixed :
 Proof. exact mt_rhs_shape_fixed_ok. Qed.
 Print Assumptions c04_multitask_rhs_shape_fixed.
 
-(* ---- KISS-GP / WISKI fantasy update (Models/C04_wiski.v).  Full statement wanted: the posterior computed from the
-   updated interpolation-space caches equals the C01 posterior of the SKI kernel W K_uu W^T on the concatenated data.
-   PARTIAL: proved here is that the two caches the fantasy strategy carries are, after the additive update, exactly
-   the caches of the concatenated data (all n, m, grid sizes g, any noise inverses); the step from the caches to the
-   posterior (Woodbury identity, root decompositions of the g x g system) is not proved — it is covered by the
-   correspondence check (KISS-GP histories vs the closed form on the implementation's own SKI kernel, tol 1e-6). *)
-Theorem c04_wiski_inner_update_partial :
+(* ---- KISS-GP / WISKI fantasy update (Models/C04_wiski.v): the posterior computed from the updated
+   interpolation-space caches equals the C01 posterior of the SKI kernel W K_uu W^T on the concatenated data.
+   Step 1 (cache additivity): the two caches the fantasy strategy carries are, after the additive update, exactly the
+   caches W'^T D'^-1 W', W'^T D'^-1 r' of the concatenated data W' = [W; W_f], D'^-1 = blkdiag(D^-1, D_f^-1), r' = [r; r_f]
+   (all n, m, grid sizes g, any noise inverses). *)
+Theorem c04_wiski_inner_update :
   forall (K : Fld) g n m W Wf Dinv Dfinv,
     meq g g (wiski_inner (n + m) (vstack n W Wf) (blkdiag n Dinv Dfinv))
             (wiski_inner_update m (wiski_inner n W Dinv) Wf Dfinv).
 Proof. intros K. exact (@wiski_inner_update_correct K). Qed.
-Print Assumptions c04_wiski_inner_update_partial.
-Theorem c04_wiski_resp_update_partial :
+Print Assumptions c04_wiski_inner_update.
+Theorem c04_wiski_resp_update :
   forall (K : Fld) g n m W Wf Dinv Dfinv r rf,
     meq g 1 (wiski_resp (n + m) (vstack n W Wf) (blkdiag n Dinv Dfinv) (vstack n r rf))
             (wiski_resp_update m (wiski_resp n W Dinv r) Wf Dfinv rf).
 Proof. intros K. exact (@wiski_resp_update_correct K). Qed.
-Print Assumptions c04_wiski_resp_update_partial.
+Print Assumptions c04_wiski_resp_update.
+(* Step 2 (caches -> posterior; Proofs/C04_wiski_post.v on top of the Woodbury / push-through lemmas of C09).  With
+     P' = interp_inner_prod + W_f^T D_f^-1 W_f,   c' = interp_response_cache + W_f^T D_f^-1 (y_f - m_f)
+   exactly as the code updates them, ANY root L (g x q, any q) of P' (the code: jittered Cholesky / low-rank root),
+   Qi = (I + L^T Kuu L)^-1, the prediction
+       mean = Ws (Kuu c' - (Kuu L) Qi (L^T Kuu c')) + m_*        cov = K_** - Ws (Kuu L) Qi (Kuu L)^T Ws^T
+   is the C01 posterior (post_mean / post_cov on the assembled joint matrix, Ainv ANY inverse of the train covariance
+   W' Kuu W'^T + blkdiag(D, D_f) of the n + m concatenated rows).  All n, m, g, q, t; the only invertibility assumed is
+   that of the matrices the code itself solves with (D, D_f, I + L^T Kuu L) and of the train covariance. *)
+Theorem c04_wiski_fantasy_mean_is_c01_posterior :
+  forall (K : Fld) n m g q Kuu W Wf D Dinv Df Dfinv L Qi Ainv,
+    is_inverse n D Dinv -> is_inverse m Df Dfinv ->
+    meq g g (mmul q L (mT L)) (wiski_inner_update m (wiski_inner n W Dinv) Wf Dfinv) ->
+    is_inverse q (madd mI (mmul g (mT L) (mmul g Kuu L))) Qi ->
+    is_inverse (n + m) (madd (ski g (vstack n W Wf) Kuu (vstack n W Wf)) (blkdiag n D Df)) Ainv ->
+    forall t mx mxf y yf ms Ws Tss,
+    let c' := wiski_resp_update m (wiski_resp n W Dinv (msub y mx)) Wf Dfinv (msub yf mxf) in
+    let Csx := ski g Ws Kuu (vstack n W Wf) in
+    meq t 1 (madd (mmul g Ws (wiski_fantasy_mean_cache g q Kuu L Qi c')) ms)
+            (post_mean (n + m)
+               (blk (n + m) (n + m) (ski g (vstack n W Wf) Kuu (vstack n W Wf)) (mT Csx) Csx Tss)
+               (vstack (n + m) (vstack n mx mxf) ms) Ainv (vstack n y yf)).
+Proof. intros K. exact (@wiski_fantasy_mean_is_c01_posterior K). Qed.
+Print Assumptions c04_wiski_fantasy_mean_is_c01_posterior.
+Theorem c04_wiski_fantasy_cov_is_c01_posterior :
+  forall (K : Fld) n m g q Kuu W Wf D Dinv Df Dfinv L Qi Ainv,
+    is_inverse n D Dinv -> is_inverse m Df Dfinv ->
+    meq g g (mmul q L (mT L)) (wiski_inner_update m (wiski_inner n W Dinv) Wf Dfinv) ->
+    is_inverse q (madd mI (mmul g (mT L) (mmul g Kuu L))) Qi ->
+    is_inverse (n + m) (madd (ski g (vstack n W Wf) Kuu (vstack n W Wf)) (blkdiag n D Df)) Ainv ->
+    forall t Ws Tss, symmetric g Kuu ->
+    let Csx := ski g Ws Kuu (vstack n W Wf) in
+    meq t t (wiski_pred_cov g q Kuu L Qi t Tss Ws)
+            (post_cov (n + m)
+               (blk (n + m) (n + m) (ski g (vstack n W Wf) Kuu (vstack n W Wf)) (mT Csx) Csx Tss) Ainv).
+Proof. intros K. exact (@wiski_fantasy_cov_is_c01_posterior K). Qed.
+Print Assumptions c04_wiski_fantasy_cov_is_c01_posterior.
+(* the cached vector itself: fantasy_mean_cache from the updated caches = the KISS-GP mean cache
+   Kuu W'^T (W' Kuu W'^T + D')^-1 r' of the concatenated data *)
+Theorem c04_wiski_fantasy_mean_cache_is_kiss_mean_cache :
+  forall (K : Fld) n m g q Kuu W Wf D Dinv Df Dfinv L Qi Ainv,
+    is_inverse n D Dinv -> is_inverse m Df Dfinv ->
+    meq g g (mmul q L (mT L)) (wiski_inner_update m (wiski_inner n W Dinv) Wf Dfinv) ->
+    is_inverse q (madd mI (mmul g (mT L) (mmul g Kuu L))) Qi ->
+    is_inverse (n + m) (madd (ski g (vstack n W Wf) Kuu (vstack n W Wf)) (blkdiag n D Df)) Ainv ->
+    forall r rf,
+    meq g 1 (wiski_fantasy_mean_cache g q Kuu L Qi (wiski_resp_update m (wiski_resp n W Dinv r) Wf Dfinv rf))
+            (interp_mean_cache (n + m) g Kuu (vstack n W Wf) Ainv (vstack n r rf)).
+Proof. intros K. exact (@wiski_fantasy_mean_cache_is_kiss K). Qed.
+Print Assumptions c04_wiski_fantasy_mean_cache_is_kiss_mean_cache.
+(* the g x g system I + Kuu P' behind both formulas is invertible as soon as Qi exists (explicit inverse
+   I - (Kuu L) Qi L^T): no extra hypothesis above *)
+Theorem c04_wiski_fantasy_system_invertible :
+  forall (K : Fld) n m g q Kuu W Wf Dinv Dfinv L Qi,
+    meq g g (mmul q L (mT L)) (wiski_inner_update m (wiski_inner n W Dinv) Wf Dfinv) ->
+    is_inverse q (madd mI (mmul g (mT L) (mmul g Kuu L))) Qi ->
+    is_inverse g (madd mI (mmul g Kuu (wiski_inner_update m (wiski_inner n W Dinv) Wf Dfinv)))
+               (wiski_Bi g q Kuu L Qi).
+Proof. intros K. exact (@wiski_fantasy_system_invertible K). Qed.
+Print Assumptions c04_wiski_fantasy_system_invertible.
 (* blkdiag of the two noise inverses is the inverse of the noise of the concatenated data *)
 Theorem c04_blkdiag_inverse :
   forall (K : Fld) n m D Dinv Df Dfinv,
@@ -269,3 +330,13 @@ Example ex_c04_root_pair :
 Proof.
   cbv zeta. repeat split; apply meqb_sound; vm_compute; reflexivity.
 Qed.
+
+(* the hypotheses of the WISKI posterior theorems are jointly satisfiable: n = 1 old point, m = 1 fantasy point, g = 2
+   grid nodes, W = [1/2 1/2], W_f = [0 1], D = [1/4], D_f = [1/9], P' = [[1,1],[1,10]] = L L^T with L = [[1,0],[1,3]] *)
+Example ex_c04_wiski_post_hypotheses :
+  is_inverse 1 wpD wpDinv /\ is_inverse 1 wpDf wpDfinv
+  /\ meq 2 2 (mmul 2 wpL (mT wpL)) (wiski_inner_update 1 (wiski_inner 1 wpW wpDinv) wpWf wpDfinv)
+  /\ is_inverse 2 (madd mI (mmul 2 (mT wpL) (mmul 2 wpKuu wpL))) wpQi
+  /\ is_inverse 2 (madd (ski 2 (vstack 1 wpW wpWf) wpKuu (vstack 1 wpW wpWf)) (blkdiag 1 wpD wpDf)) wpAinv
+  /\ symmetric 2 wpKuu.
+Proof. exact ex_wiski_post_hyps. Qed.
